@@ -10,8 +10,11 @@ What is proved here
   * D (kernel decisions over the regenerated tables): which separators the minify rule sets emit
     (`minify_space_handlers`, `space_table_*`), which statement ends `drop_semi` may drop and in which body slots
     (`dropped_semis_are_asi_restorable_partial`: every body slot except the one of `while` keeps its `;`);
-  * the full statement is FALSE of the code: its negation on the witnesses of KF-02a … KF-02f and KF-01, evaluated
-    by the model in the kernel (`kf02?_witness`), next to positive instances (`a + +b`, `for(;;);`, `if(a);else;`).
+  * the full statement is FALSE of the code: its negation on the witnesses of KF-01, KF-02b, KF-02c, KF-02e, KF-02f,
+    evaluated by the model in the kernel (`kf…_witness`), next to positive instances (`a + +b`, `for(;;);`, `if(a);else;`);
+  * regression facts for the two findings REPAIRED in /repo (they fail again if the repair is undone):
+    `fixed_kf02a` (9cebc23: `a / /re/` now minifies to `a/ /re/`), `fixed_kf02d` / `fixed_kf02d_block` (c249e7a: the `;`
+    that is the body of a `while` is kept under drop_semi), `no_statement_slot_after_optional_space`.
 What is NOT proved (rests on the judge of harness/checks/C02.py over the targeted token-adjacency generator):
   `minify_relexes` for all trees and the grammar layer.
 -/
@@ -54,17 +57,18 @@ theorem minify_space_handlers :
      lookupLayout Gen.Rules.rs_minify1.layout (LKey.single .RequiredSpace) = some .spaceImply ∧
      lookupLayout Gen.Rules.rs_minify1.layout (LKey.single .Newline) = none) := by decide
 
-/-- what `required_space` does NOT separate (the table-level root of KF-02a, KF-02b, KF-02c, KF-02f, KF-01):
-`/ /`, a regex's closing `/` or a flag-less `/` before a letter is not a word pair, a combining mark before a
-letter, `.` before a letter, a digit before `.` -/
+/-- what `required_space` does NOT separate (the table-level root of KF-02b, KF-02c, KF-02f, KF-01):
+a regex's closing `/` before a letter is not a word pair, a combining mark before a letter, `.` before a letter,
+a digit before `.` -/
 theorem space_table_gaps :
-    requiredSpaceGen '/' '/' = false ∧ requiredSpaceGen '/' 'i' = false ∧
+    requiredSpaceGen '/' 'i' = false ∧
     requiredSpaceGen (Char.ofNat 0x300) 'i' = false ∧ requiredSpaceGen (Char.ofNat 0x203F) 'i' = false ∧
     requiredSpaceGen '.' 'i' = false ∧ requiredSpaceGen '1' '.' = false := by decide +kernel
 
-/-- and what it does separate: the cases the property text lists (`a + +b`, `a - --b`, `a in b`, `typeof x`) -/
+/-- and what it does separate: the cases the property text lists (`a + +b`, `a - --b`, `a in b`, `typeof x`,
+`x / /re/` — the last since the repair 9cebc23) -/
 theorem space_table_hits :
-    requiredSpaceGen '+' '+' = true ∧ requiredSpaceGen '-' '-' = true ∧ requiredSpaceGen 'a' 'i' = true ∧
+    requiredSpaceGen '/' '/' = true ∧ requiredSpaceGen '+' '+' = true ∧ requiredSpaceGen '-' '-' = true ∧ requiredSpaceGen 'a' 'i' = true ∧
     requiredSpaceGen 'n' 'b' = true ∧ requiredSpaceGen 'f' 'x' = true ∧ requiredSpaceGen '1' 'i' = true ∧
     requiredSpaceGen 'a' '$' = true ∧ requiredSpaceGen '$' 'i' = true := by decide +kernel
 
@@ -80,16 +84,28 @@ def slotsAfter (m : Marker) : List Rule → List String
 def allSlotsAfter (m : Marker) (defs : Defs) : List (String × String) :=
   defs.flatMap (fun kd => (slotsAfter m kd.2).map (fun a => (kd.1, a)))
 
+/-- no `Optional` body of a definition contains marker `m` (bodies are one level deep: a nested Optional fails) -/
+def optionalBodiesFreeOf (m : Marker) (defs : Defs) : Bool :=
+  defs.all fun kd => kd.2.all fun r => match r with
+    | .optional _ body => body.all (fun r' => match r' with
+        | .layout m' => m' != m
+        | .optional _ _ => false
+        | _ => true)
+    | _ => true
+
+def statementSlots : List String := ["statement", "consequent", "alternative", "elements", "statements", "case_block"]
+
 /-- `dropped_semis_are_asi_restorable` (partial: decide-level table facts, not lifted to all trees).
 Under `drop_semi`:
   1. a plain statement end prints `;` only when more text follows (`semicolon_optional`), is swallowed by a directly
      following `}` (`(EndStatement, CloseBlock) ↦ closebrace`);
   2. an empty statement in a body slot introduced by `Space` — the bodies of `if`/`else`, `for`, `for-in`, `with`,
      `do`, labels — ALWAYS keeps its `;` (`(Space, EndStatement) ↦ semicolon`);
-  3. an empty statement in a body slot introduced by `OptionalSpace` may lose it
+  3. an empty statement in a slot introduced by `OptionalSpace` could lose it
      (`(OptionalSpace, EndStatement) ↦ semicolon_optional`, `((OptionalSpace, EndStatement), CloseBlock) ↦ closebrace`),
-     and the ONLY statement slot introduced by `OptionalSpace` is `While.statement`: the exclusion class of KF-02d
-     (the other `OptionalSpace` slots are expression / for-header slots);
+     but NO statement slot is introduced by `OptionalSpace` (since c249e7a; before, `While.statement` was — KF-02d):
+     the remaining `OptionalSpace` slots are the operator of `Assign`, the operand of `UnaryExpr` and the two header
+     clauses of `For`, which are followed by the header's `;` or `)`;
   4. without `drop_semi` every one of these keys maps to the unconditional `semicolon`. -/
 theorem dropped_semis_are_asi_restorable_partial :
     (lookupLayout Gen.Rules.rs_minify1.layout (LKey.single .EndStatement) = some .semicolonOptional ∧
@@ -99,18 +115,24 @@ theorem dropped_semis_are_asi_restorable_partial :
      lookupLayout Gen.Rules.rs_minify1.layout
        (LKey.tuple [LKey.tuple [LKey.single .OptionalSpace, LKey.single .EndStatement], LKey.single .CloseBlock]) = some .closebrace ∧
      allSlotsAfter .OptionalSpace Gen.Defs.definitions =
-       [("Assign", "op"), ("For", "cond"), ("For", "count"), ("UnaryExpr", "value"), ("While", "statement")]) ∧
+       [("Assign", "op"), ("For", "cond"), ("For", "count"), ("UnaryExpr", "value")]) ∧
     (lookupLayout Gen.Rules.rs_minify0.layout (LKey.single .EndStatement) = some .semicolon ∧
      lookupLayout Gen.Rules.rs_minify0.layout (LKey.tuple [LKey.single .Space, LKey.single .EndStatement]) = some .semicolon ∧
      lookupLayout Gen.Rules.rs_minify0.layout (LKey.tuple [LKey.single .OptionalSpace, LKey.single .EndStatement]) = some .semicolon) := by
   decide
+
+/-- regression fact of the repair c249e7a: no statement slot of any definition — at top level or inside an `Optional`
+body — is introduced by `OptionalSpace`, so the droppable `(OptionalSpace, EndStatement)` run never is a statement body -/
+theorem no_statement_slot_after_optional_space :
+    ((allSlotsAfter .OptionalSpace Gen.Defs.definitions).all fun p => !statementSlots.contains p.2) = true ∧
+    optionalBodiesFreeOf .OptionalSpace Gen.Defs.definitions = true := by decide
 
 /-- the statement-body slots introduced by `Space` (kept by fact 2); the `else` branch sits in an `Optional` body
 (`Newline, 'else', Space, alternative`, see Gen.Defs) and is introduced by `Space` as well -/
 theorem space_body_slots :
     (allSlotsAfter .Space Gen.Defs.definitions).filter (fun p => p.2 == "statement" || p.1 == "If") =
       [("DoWhile", "statement"), ("For", "statement"), ("ForIn", "statement"), ("If", "consequent"), ("Label", "statement"),
-       ("With", "statement")] ∧
+       ("While", "statement"), ("With", "statement")] ∧
     defTags Gen.Defs.definitions "If" = some ["comments", "text:if", "layout:Space", "text:(", "attr:predicate", "text:)",
       "layout:Space", "attr:consequent", "optional:alternative"] := by decide
 
@@ -132,8 +154,9 @@ set_option maxRecDepth 100000 in
 /-- KF-01 `1 .x;` → `1.x;` -/
 theorem kf01_witness : minifyText false kf01 = .ok "1.x;" := printsText_spec (by decide)
 set_option maxRecDepth 100000 in
-/-- KF-02a `a / /re/;` → `a//re/;` (a line comment) -/
-theorem kf02a_witness : minifyText false kf02a = .ok "a//re/;" := printsText_spec (by decide)
+/-- fixed KF-02a (9cebc23): `a / /re/;` now keeps a separator — it used to print `a//re/;`, a line comment -/
+theorem fixed_kf02a : minifyText false kf02a = .ok "a/ /re/;" ∧ minifyText true kf02a = .ok "a/ /re/" :=
+  ⟨printsText_spec (by decide), printsText_spec (by decide)⟩
 set_option maxRecDepth 100000 in
 /-- KF-02b `/re/ in b;` → `/re/in b;` (the keyword becomes regex flags) -/
 theorem kf02b_witness : minifyText false kf02b = .ok "/re/in b;" := printsText_spec (by decide)
@@ -141,13 +164,14 @@ set_option maxRecDepth 100000 in
 /-- KF-02c `à in b;` (a + U+0300) → `àin b;` (one identifier) -/
 theorem kf02c_witness : minifyText false kf02c = .ok "àin b;" := printsText_spec (by decide)
 set_option maxRecDepth 100000 in
-/-- KF-02d `function f(){while(1);}` with drop_semi → the loop body `;` is gone -/
-theorem kf02d_witness : minifyText true kf02d = .ok "function f(){while(1)}" ∧
+/-- fixed KF-02d (c249e7a): `function f(){while(1);}` keeps the loop body `;` under drop_semi (it used to print
+`function f(){while(1)}`) -/
+theorem fixed_kf02d : minifyText true kf02d = .ok "function f(){while(1);}" ∧
     minifyText false kf02d = .ok "function f(){while(1);}" :=
   ⟨printsText_spec (by decide), printsText_spec (by decide)⟩
 set_option maxRecDepth 100000 in
-/-- KF-02d `while(a);{}` with drop_semi → `while(a){}`: silently another program -/
-theorem kf02d_witness_silent : minifyText true kf02d2 = .ok "while(a){}" := printsText_spec (by decide)
+/-- fixed KF-02d: `while(a);{}` with drop_semi stays `while(a);{}` (it used to print `while(a){}`, another program) -/
+theorem fixed_kf02d_block : minifyText true kf02d2 = .ok "while(a);{}" := printsText_spec (by decide)
 set_option maxRecDepth 100000 in
 /-- KF-02e `a;{}` with drop_semi → `a{}` -/
 theorem kf02e_witness : minifyText true kf02e = .ok "a{}" ∧ minifyText false kf02e = .ok "a;{}" :=
